@@ -26,8 +26,10 @@ def expected_registrations : List String := [
   "bytes_repr_float <- register_serializer",
   "bytes_repr_function <- register_serializer",
   "bytes_repr_int <- register_serializer",
+  "bytes_repr_method <- register_serializer",
   "bytes_repr_numpy <- register_serializer(numpy.generic)",
   "bytes_repr_numpy <- register_serializer(numpy.ndarray)",
+  "bytes_repr_partial <- register_serializer",
   "bytes_repr_pathlike <- register_serializer",
   "bytes_repr_seq <- register_serializer(list)",
   "bytes_repr_seq <- register_serializer(tuple)",
@@ -59,6 +61,8 @@ def expected_sources : List (String × String) := [
   ("hash.bytes_repr_seq", "2a12dbfdbdfcbfe2865d7c2a"),
   ("hash.bytes_repr_set", "d4ac405f564d4af41c53ed2c"),
   ("hash.bytes_repr_code", "e03593b5287cabda61ec5b6f"),
+  ("hash.bytes_repr_partial", "115f258bf84372e0720b0aa9"),
+  ("hash.bytes_repr_method", "6593ae27e9f07a5b131e540c"),
   ("hash.bytes_repr_function", "66e85fc106aee0aad583db1e"),
   ("hash.bytes_repr_mapping_contents", "25f43b26791680c1eb799036"),
   ("hash.bytes_repr_sequence_contents", "ee888d21f3f444fc2421eac9"),
